@@ -1462,7 +1462,76 @@ def gen_c14_buffer(r, tier="quick"):
     return {"knobs": dict(DEFAULT_KNOBS), "ops": ops}
 
 
+def gen_c14_inplace(r, tier="quick"):
+    """The rolling-horizon loop: coefficient arrays of the user's (cost vector, covariance matrix)
+    are handed to optyx once, the expressions built from them are reused in Problem after Problem,
+    and between two Problems the user overwrites the arrays in place.  Whatever the expressions
+    mean after that, every Problem built on them must see ONE consistent set of numbers -- here:
+    the numbers they were built with -- however many Problems used them before."""
+    from .world import DEFAULT_KNOBS
+
+    n = r.choice([2, 3])
+    vname = "w"
+    Q = [[0.0] * n for _ in range(n)]
+    for i in range(n):
+        Q[i][i] = r.choice([1.0, 2.0, 3.0])
+    if r.random() < 0.6:
+        Q[0][1] = Q[1][0] = r.choice([0.5, -0.5])
+    c = [r.choice(COEFS) for _ in range(n)]
+    A = [[r.choice([0.0, 1.0, 2.0, -1.0]) for _ in range(n)] for _ in range(2)]
+    sp = {"name": "roll", "share_views": True,
+          "buffers": {"c": c, "Q": Q, "A": A},
+          "vars": [{"kind": "vector", "name": vname, "n": n, "lb": -5.0, "ub": 5.0, "domain": "continuous"}],
+          "params": [],
+          "exprs": {"o0": ["-", ["dot", ["vec", vname], ["vec", vname]], ["lincomb", "@c", ["vec", vname]]],
+                    "o1": ["-", ["quad", ["vec", vname], "@Q"], ["lincomb", "@c", ["vec", vname]]],
+                    "o2": ["+", ["qform", ["vec", vname], "@Q"], ["vsum", ["matvec", "@A", ["vec", vname]]]],
+                    "o3": ["lincomb", "@c", ["vec", vname]]},
+          "cons": {"c0": {"k": "s", "lhs": ["vsum", ["vec", vname]], "sense": "==", "rhs": ["num", 1.0]},
+                   "c1": {"k": "v", "lhs": ["matvec", "@A", ["vec", vname]], "sense": "<=", "rhs": [4.0, 6.0]}},
+          "expr_order": ["o0", "o1", "o2", "o3"], "con_order": ["c0", "c1"]}
+    order = [f"{vname}[{i}]" for i in range(n)]
+    ops = [["new_model", 0, sp]]
+    mid = 0
+    nxt = 1
+    for rnd in range(r.randint(2, 4)):
+        o = r.choice(["o0", "o0", "o1", "o2", "o3"])
+        ops.append([r.choice(["minimize", "minimize", "maximize"]) if o == "o3" else "minimize", mid, o])
+        for cn in r.sample(["c0", "c1"], r.choice([0, 1, 1, 2])):
+            ops.append(["subject_to", mid, cn])
+        if r.random() < 0.4:
+            hid = f"h{rnd}"
+            ops.append(["compile", mid, hid, r.choice(["grad", "jac", "hess", "expr"]), {"e": o, "es": [o], "order": order}])
+            ops.append(["call", mid, hid, gen_point(r, sp)])
+        ops.append(["solve", mid, cap_iterations(r, {"method": r.choice(["auto", "SLSQP", "trust-constr", "L-BFGS-B", "linprog" if o == "o3" else "auto"])})])
+        # the next data window arrives: written into the same arrays
+        for b in r.sample(["c", "Q", "A"], r.choice([1, 1, 2])):
+            if b == "c":
+                ops.append(["buffer_write", mid, "c", [r.choice(COEFS) for _ in range(n)]])
+            elif b == "Q":
+                Q2 = [[0.0] * n for _ in range(n)]
+                for i in range(n):
+                    Q2[i][i] = r.choice([1.0, 2.0, 4.0])
+                ops.append(["buffer_write", mid, "Q", Q2])
+            else:
+                ops.append(["buffer_write", mid, "A", [[r.choice([0.0, 1.0, 2.0, -1.0]) for _ in range(n)] for _ in range(2)]])
+        k = r.random()
+        if k < 0.5:
+            # a brand-new Problem over the same expression objects
+            ops.append(["alias_model", nxt, 0])
+            mid = nxt
+            nxt += 1
+        elif k < 0.75:
+            ops.append(["evaluate", mid, o, gen_point(r, sp)])
+    o = r.choice(["o0", "o1", "o2"])
+    ops.append(["minimize", mid, o])
+    ops.append(["solve", mid, cap_iterations(r, {"method": r.choice(["SLSQP", "trust-constr", "auto"])})])
+    return {"knobs": dict(DEFAULT_KNOBS), "ops": ops}
+
+
 def gen_c14(r, tier="quick"):
+    if r.random() < 0.05:
+        return gen_c14_inplace(r, tier)
     k = r.random()
     if k < 0.15:
         return gen_c14_churn(r, tier)
